@@ -140,7 +140,7 @@ def c13a_raw(ctx, prog):
         ctx.fail(o, "(program)", "expected >= 2 variable-length raw writes (write_str, CStr), found %d" % n)
 
 
-def c13a(ctx, impls):
+def c13a(ctx, impls, floors=True):
     o = ctx.ob("C13.a", "length-before-repetition", "K9", "every loop feeding the hasher is preceded by a hashed length")
     n = 0
     for im, b in impls:
@@ -155,7 +155,7 @@ def c13a(ctx, impls):
                 oo = ctx.ob("C13.a", "length-before-repetition/%s" % short(im["self_ty"]), "K9", o.desc)
                 ctx.fail(oo, lp.head, "StableHash for `%s` hashes a repetition without hashing its length first: ([a],[b,c]) and ([a,b],[c]) would feed the same byte stream" % short(im["self_ty"]))
     o.sites = n
-    if n < 12:
+    if floors and n < 12:
         ctx.fail(o, "(program)", "expected >= 12 hashing loops, found %d" % n)
     o = ctx.ob("C13.a", "discriminant-before-alternation", "K9", "every alternation on the value's own variant is preceded by hashing its discriminant")
     m = 0
@@ -186,8 +186,61 @@ def c13a(ctx, impls):
                            [x.site for x in df.origins_of_operand(b, d_.node["args"][0]) if x.kind == "call" and (x.callee() or "").endswith("mem::discriminant")] if df.op_place(cs.node["args"][0])):
                     pass
     o.sites = m
-    if m < 3:
+    if floors and m < 3:
         ctx.fail(o, "(program)", "expected >= 3 variant alternations in StableHash impls, found %d" % m)
+
+
+def c13e(ctx):
+    """#[derive(StableHash)] on /verif's fixture universe (engine/fixtures/derive_shapes.rs): the generated impl hashes the
+    discriminant of an enum before its payload and every field of every variant / struct, each exactly once."""
+    from .. import extract
+    from ..facts import Program
+    if ctx.key_prefix:
+        return
+    fx = Program([extract.facts_for("main"), extract.facts_for_fixture("derivefix")])
+    impls = [(im, b) for im, b in hash_impls(fx) if b.crate == "qbv_fixture_derivefix"]
+    o = ctx.ob("C13.e", "derive/every-field-hashed-once", "K8", "a derived StableHash impl feeds every field of the value (per variant) to the hasher exactly once")
+    o.sites = len(impls)
+    if len(impls) < 3:
+        ctx.fail(o, "(program)", "expected >= 3 derived StableHash impls in the fixture universe, found %d" % len(impls))
+    for im, b in impls:
+        ctx.touch(b)
+        adt = fx.adts.get(im.get("self_adt") or "")
+        if adt is None:
+            ctx.fail(o, Site(b, 0, 0), "no ADT definition for `%s`" % im["self_ty"])
+            continue
+        calls = b.calls_to(r"StableHash::stable_hash$")
+        def fields_hashed(region=None):
+            out = []
+            for s_ in calls:
+                if region is not None and s_.bb not in region:
+                    continue
+                ap = [x for x in df.access_path(b, s_.node["args"][0]) if not x.startswith("<")]
+                if ap:
+                    out.append(ap[-1])
+            return sorted(out)
+        if adt["adt_kind"] == "Enum":
+            edges = [(sb, tb, int(v)) for sb, tb, v, c in df.variant_edges(b, "") if v != "otherwise" and is_self_place(b, c.place)]
+            for vi, var in enumerate(adt["variants"]):
+                want = sorted(f["name"] for f in var["fields"])
+                if not want:
+                    continue
+                tbs = [tb for sb, tb, v in edges if v == vi]
+                if not tbs:
+                    ctx.fail(o, Site(b, 0, 0), "derived StableHash for `%s` has no arm for variant %s" % (short(im["self_ty"]), var["name"]))
+                    continue
+                sb0 = [sb for sb, tb, v in edges if v == vi][0]
+                got = fields_hashed(b.reachable(tbs, removed_nodes=[sb0]) - set().union(*[b.reachable([tb2], removed_nodes=[sb0]) for sb2, tb2, v2 in edges if v2 != vi and tb2 not in tbs] or [set()]))
+                if got != want:
+                    ctx.fail(o, Site(b, tbs[0], 0), "derived StableHash for `%s::%s` hashes the fields %s, the variant has %s" % (short(im["self_ty"]), var["name"], got, want))
+        else:
+            want = sorted(f["name"] for f in adt["variants"][0]["fields"])
+            got = fields_hashed()
+            if got != want:
+                ctx.fail(o, Site(b, 0, 0), "derived StableHash for `%s` hashes the fields %s, the struct has %s" % (short(im["self_ty"]), got, want))
+    ctx.alias = {"C13.a": "C13.e"}
+    c13a(ctx, impls, floors=False)
+    ctx.alias = {}
 
 
 def is_unordered(im):
@@ -413,3 +466,4 @@ def run(ctx):
     ctx.run_clause("C13.c", lambda c: c13c(c, prog, impls))
     ctx.run_clause("C13.d", lambda c: c13d(c, prog))
     ctx.run_clause("C13.d", lambda c: c13d_casts(c, prog, impls))
+    ctx.run_clause("C13.e", c13e)
